@@ -118,6 +118,51 @@ func H_C16_fc() {
 	checkGrad("FC d/dW", *ws[0].Value, true, []int{O}, gw)
 	checkGrad("FC d/dB", *ws[1].Value, true, []int{O}, gb)
 	checkGrad("FC d/dx", x, tx, []int{B, F}, gx)
+
+	// any sequence of replacements through the Weights() pointers followed by Forward: replace again,
+	// through the pointers obtained BEFORE the last Forward, and evaluate once more
+	we2, be2 := elems("w2", O), elems("b2", O)
+	*ws[0].Value = fromFlat(we2, []int{O}, true)
+	*ws[1].Value = fromFlat(be2, []int{O}, true)
+	B1 := B
+	B = vrt.Concretize(vrt.Int("B2", 1, vrt.Param("maxb"))) // the second batch has its own size
+	_ = B1
+	x2, xe2 := mk("x2", []int{B, F}, false)
+	y2, err := fc.Forward(x2)
+	vrt.Assert("Forward after replacement accepted", err == nil)
+	if err != nil || y2 == nil {
+		return
+	}
+	want2 := make([]float64, B*O)
+	rows2 := make([]float64, B)
+	for b := 0; b < B; b++ {
+		for d := 0; d < F; d++ {
+			rows2[b] += xe2[b*F+d]
+		}
+		for o := 0; o < O; o++ {
+			want2[b*O+o] = we2[o]*rows2[b] + be2[o]
+		}
+	}
+	checkTensor("Forward uses the tensors currently behind the Weights() pointers", y2, []int{B, O}, want2)
+	ge2, ok := backThrough(y2)
+	if !ok {
+		return
+	}
+	gw2, gb2 := zeros(O), zeros(O)
+	for b := 0; b < B; b++ {
+		for o := 0; o < O; o++ {
+			gw2[o] += ge2[b*O+o] * rows2[b]
+			gb2[o] += ge2[b*O+o]
+		}
+	}
+	if vrt.Known("bcast_backward_mean") {
+		for o := 0; o < O; o++ {
+			gw2[o] = gw2[o] / float64(B)
+			gb2[o] = gb2[o] / float64(B)
+		}
+	}
+	checkGrad("FC d/dW after replacement", *ws[0].Value, true, []int{O}, gw2)
+	checkGrad("FC d/dB after replacement", *ws[1].Value, true, []int{O}, gb2)
 	vrt.Reach("done")
 }
 
